@@ -198,4 +198,206 @@ pub proof fn lemma_next_then_skip<N, const K: usize>(a: Arena<N, K>, h: Map<usiz
 pub open spec fn size_ok<N, const K: usize>(a: Arena<N, K>, h: Map<usize, nat>, s: Seq<DfsNodeData>, lb: usize, ub: usize) -> bool {
     lb <= rem(a, h, s).len() <= ub
 }
+
+// ------------------------------------------------------------------ edges (DfsEdge)
+pub type EItem = (usize, usize, usize, usize);   // (depth, source, label, target)
+
+pub open spec fn kid_edges<const K: usize>(ch: [Option<usize>; K], lo: int, depth: usize, src: usize) -> Seq<EItem>
+    decreases K - lo
+{
+    if lo >= K || lo < 0 { Seq::empty() }
+    else if ch[lo].is_some() { seq![(depth, src, lo as usize, ch[lo].unwrap())] + kid_edges(ch, lo + 1, depth, src) }
+    else { kid_edges(ch, lo + 1, depth, src) }
+}
+
+// edges of the subtree hanging below edge e, in pre-order, starting with e itself
+pub open spec fn pre_edges<N, const K: usize>(a: Arena<N, K>, h: Map<usize, nat>, e: EItem) -> Seq<EItem>
+    decreases h[e.3] + 1, 0nat
+{
+    seq![e] + concat_edges(a, h, kid_edges(a[e.3].children, 0, (e.0 + 1) as usize, e.3), h[e.3])
+}
+pub open spec fn concat_edges<N, const K: usize>(a: Arena<N, K>, h: Map<usize, nat>, xs: Seq<EItem>, bound: nat) -> Seq<EItem>
+    decreases bound, xs.len() + 1
+{
+    if xs.len() == 0 { Seq::empty() }
+    else { (if h[xs[0].3] < bound { pre_edges(a, h, xs[0]) } else { Seq::empty() }) + concat_edges(a, h, xs.drop_first(), bound) }
+}
+pub open spec fn rem_e<N, const K: usize>(a: Arena<N, K>, h: Map<usize, nat>, s: Seq<EItem>) -> Seq<EItem>
+    decreases s.len()
+{
+    if s.len() == 0 { Seq::empty() } else { pre_edges(a, h, s.last()) + rem_e(a, h, s.drop_last()) }
+}
+pub open spec fn edges_below(h: Map<usize, nat>, xs: Seq<EItem>, bound: nat) -> bool {
+    forall|j: int| 0 <= j < xs.len() ==> h[(#[trigger] xs[j]).3] < bound
+}
+pub open spec fn estack_ok<N, const K: usize>(a: Arena<N, K>, s: Seq<EItem>) -> bool {
+    forall|j: int| 0 <= j < s.len() ==> a.dom().contains((#[trigger] s[j]).3) && s[j].0 < usize::MAX
+}
+pub open spec fn edge_inv<N, const K: usize>(a: Arena<N, K>, h: Map<usize, nat>, s: Seq<EItem>) -> bool {
+    &&& ranked_down(a, h) && kids_ok(a)
+    &&& forall|j: int| 0 <= j < s.len() ==> a.dom().contains((#[trigger] s[j]).3) && s[j].0 + h[s[j].3] < usize::MAX
+}
+
+pub proof fn lemma_kid_edges_len<const K: usize>(ch: [Option<usize>; K], lo: int, depth: usize, src: usize)
+    requires 0 <= lo <= K
+    ensures kid_edges(ch, lo, depth, src).len() == count_some_from(ch, lo), count_some_from(ch, lo) <= K - lo
+    decreases K - lo
+{
+    if lo < K { lemma_kid_edges_len(ch, lo + 1, depth, src); }
+}
+
+pub proof fn lemma_kid_edges_below<N, const K: usize>(a: Arena<N, K>, h: Map<usize, nat>, i: usize, lo: int, depth: usize)
+    requires ranked_down(a, h), kids_ok(a), a.dom().contains(i), 0 <= lo
+    ensures edges_below(h, kid_edges(a[i].children, lo, depth, i), h[i]),
+        forall|j: int| 0 <= j < kid_edges(a[i].children, lo, depth, i).len() ==> a.dom().contains((#[trigger] kid_edges(a[i].children, lo, depth, i)[j]).3)
+            && kid_edges(a[i].children, lo, depth, i)[j].0 == depth
+    decreases K - lo
+{
+    if lo < K {
+        lemma_kid_edges_below(a, h, i, lo + 1, depth);
+        let ch = a[i].children;
+        if ch[lo].is_some() {
+            let rest = kid_edges(ch, lo + 1, depth, i);
+            let all = kid_edges(ch, lo, depth, i);
+            assert(all.len() == rest.len() + 1);
+            assert forall|j: int| 0 <= j < all.len() implies h[(#[trigger] all[j]).3] < h[i] && a.dom().contains(all[j].3) && all[j].0 == depth by {
+                if j == 0 { assert(all[0].3 == ch[lo].unwrap()); } else { assert(all[j] == rest[j - 1]); }
+            }
+        }
+    }
+}
+
+pub proof fn lemma_rem_e_push_rev<N, const K: usize>(a: Arena<N, K>, h: Map<usize, nat>, rest: Seq<EItem>, xs: Seq<EItem>, bound: nat)
+    requires edges_below(h, xs, bound)
+    ensures rem_e(a, h, rest + xs.reverse()) == concat_edges(a, h, xs, bound) + rem_e(a, h, rest)
+    decreases xs.len()
+{
+    if xs.len() == 0 {
+        assert(rest + xs.reverse() =~= rest);
+    } else {
+        let s = rest + xs.reverse();
+        let tail = xs.drop_first();
+        assert(s.last() == xs[0]);
+        assert(s.drop_last() =~= rest + tail.reverse());
+        assert(edges_below(h, tail, bound)) by {
+            assert forall|j: int| 0 <= j < tail.len() implies h[(#[trigger] tail[j]).3] < bound by { assert(tail[j] == xs[j + 1]); }
+        }
+        lemma_rem_e_push_rev(a, h, rest, tail, bound);
+        assert(h[xs[0].3] < bound);
+    }
+}
+
+pub proof fn lemma_edge_push_step<const K: usize>(ch: [Option<usize>; K], i: int, dp: usize, src: usize, rest: Seq<EItem>)
+    requires 0 <= i < K
+    ensures
+        ch[i].is_none() ==> kid_edges(ch, i, dp, src) == kid_edges(ch, i + 1, dp, src) && count_some_from(ch, i) == count_some_from(ch, i + 1),
+        ch[i].is_some() ==> count_some_from(ch, i) == count_some_from(ch, i + 1) + 1
+            && (rest + kid_edges(ch, i + 1, dp, src).reverse()).push((dp, src, i as usize, ch[i].unwrap())) == rest + kid_edges(ch, i, dp, src).reverse(),
+{
+    if ch[i].is_some() {
+        let item = (dp, src, i as usize, ch[i].unwrap());
+        let kj = kid_edges(ch, i + 1, dp, src);
+        let ki = kid_edges(ch, i, dp, src);
+        assert(ki == seq![item] + kj);
+        assert(ki.reverse() =~= kj.reverse().push(item));
+        assert((rest + kj.reverse()).push(item) =~= rest + kj.reverse().push(item));
+    }
+}
+
+pub proof fn lemma_rem_e_len_ge<N, const K: usize>(a: Arena<N, K>, h: Map<usize, nat>, s: Seq<EItem>, k: int)
+    requires 0 <= k <= s.len()
+    ensures rem_e(a, h, s).len() >= rem_e(a, h, s.take(s.len() - k)).len() + k
+    decreases k
+{
+    if k == 0 { assert(s.take(s.len() as int) =~= s); }
+    else {
+        lemma_rem_e_len_ge(a, h, s.drop_last(), k - 1);
+        assert(s.drop_last().take(s.len() - 1 - (k - 1)) =~= s.take(s.len() - k));
+    }
+}
+
+// DfsEdge::next(): pop the top edge, report it, push the edges leaving its target (lowest label on top)
+pub open spec fn edge_step<N, const K: usize>(a: Arena<N, K>, s0: Seq<EItem>, s1: Seq<EItem>, last_push1: usize, r: Option<EdgeData>) -> bool {
+    match r {
+        None => s0.len() == 0 && s1 == s0,
+        Some(ed) => s0.len() > 0 && ed.src == s0.last().1 && ed.label == s0.last().2 && ed.dest == s0.last().3
+            && s1 == s0.drop_last() + kid_edges(a[s0.last().3].children, 0, (s0.last().0 + 1) as usize, s0.last().3).reverse()
+            && last_push1 == count_some_from(a[s0.last().3].children, 0),
+    }
+}
+
+pub proof fn lemma_edge_step<N, const K: usize>(a: Arena<N, K>, h: Map<usize, nat>, s0: Seq<EItem>, s1: Seq<EItem>, lp: usize, r: Option<EdgeData>)
+    requires edge_inv(a, h, s0), edge_step(a, s0, s1, lp, r)
+    ensures
+        edge_inv(a, h, s1),
+        r.is_none() ==> rem_e(a, h, s0).len() == 0,
+        r.is_some() ==> rem_e(a, h, s0) == seq![s0.last()] + rem_e(a, h, s1),
+        r.is_some() ==> lp <= s1.len() && s1.take(s1.len() - lp) == s0.drop_last()
+            && rem_e(a, h, s0) == pre_edges(a, h, s0.last()) + rem_e(a, h, s0.drop_last()),
+{
+    if r.is_some() {
+        let e = s0.last();
+        let dp = (e.0 + 1) as usize;
+        let kids = kid_edges(a[e.3].children, 0, dp, e.3);
+        let rest = s0.drop_last();
+        assert(a.dom().contains(e.3) && e.0 + h[e.3] < usize::MAX);
+        lemma_kid_edges_below(a, h, e.3, 0, dp);
+        lemma_kid_edges_len(a[e.3].children, 0, dp, e.3);
+        lemma_rem_e_push_rev(a, h, rest, kids, h[e.3]);
+        assert forall|j: int| 0 <= j < s1.len() implies a.dom().contains((#[trigger] s1[j]).3) && s1[j].0 + h[s1[j].3] < usize::MAX by {
+            if j < rest.len() { assert(s1[j] == s0[j]); }
+            else {
+                let k = kids.len() - 1 - (j - rest.len());
+                assert(s1[j] == kids.reverse()[j - rest.len()]);
+                assert(kids.reverse()[j - rest.len()] == kids[k]);
+            }
+        }
+        assert(s1.take(s1.len() - lp) =~= rest);
+    }
+}
+
+pub open spec fn eskip_step(s0: Seq<EItem>, lp0: usize, s1: Seq<EItem>, lp1: usize) -> bool {
+    lp1 == 0 && s1 == s0.take(if lp0 <= s0.len() { s0.len() - lp0 } else { 0 })
+}
+
+pub proof fn lemma_edge_next_then_skip<N, const K: usize>(a: Arena<N, K>, h: Map<usize, nat>, s0: Seq<EItem>, s1: Seq<EItem>, lp1: usize, ed: EdgeData,
+    s2: Seq<EItem>, lp2: usize, s3: Seq<EItem>, lp3: usize)
+    requires edge_inv(a, h, s0), edge_step(a, s0, s1, lp1, Some(ed)), eskip_step(s1, lp1, s2, lp2), eskip_step(s2, lp2, s3, lp3)
+    ensures rem_e(a, h, s0) == pre_edges(a, h, s0.last()) + rem_e(a, h, s2), s3 == s2, edge_inv(a, h, s2)
+{
+    lemma_edge_step(a, h, s0, s1, lp1, Some(ed));
+    assert(s2 == s0.drop_last());
+    assert(s3 =~= s2);
+    assert forall|j: int| 0 <= j < s2.len() implies a.dom().contains((#[trigger] s2[j]).3) && s2[j].0 + h[s2[j].3] < usize::MAX by { assert(s2[j] == s0[j]); }
+}
+
+pub open spec fn esize_ok<N, const K: usize>(a: Arena<N, K>, h: Map<usize, nat>, s: Seq<EItem>, lb: usize, ub: usize) -> bool {
+    lb <= rem_e(a, h, s).len() <= ub
+}
+
+// ------------------------------------------------------------------ breadth first (Bfs)
+// next(): take the front item; append its children in ascending label order, one level deeper, each with the
+// number of siblings that follow it
+pub open spec fn bfs_step<N, const K: usize>(a: Arena<N, K>, q0: Seq<DfsNodeData>, q1: Seq<DfsNodeData>, last_push1: usize, r: Option<DfsNodeData>) -> bool {
+    match r {
+        None => q0.len() == 0 && q1 == q0,
+        Some(data) => q0.len() > 0 && data == q0.first()
+            && q1 == q0.drop_first() + kid_items(a[data.index].children, 0, (data.depth + 1) as usize)
+            && last_push1 == count_some_from(a[data.index].children, 0),
+    }
+}
+// skip_subtree(): drop the children appended by the last next() from the back of the queue
+pub open spec fn bfs_skip_step(q0: Seq<DfsNodeData>, lp0: usize, q1: Seq<DfsNodeData>, lp1: usize) -> bool {
+    lp1 == 0 && q1 == q0.take(if lp0 <= q0.len() { q0.len() - lp0 } else { 0 })
+}
+// after next() returned `data`, skip_subtree() leaves exactly the queue without data's children (hence without its descendants)
+pub proof fn lemma_bfs_next_then_skip<N, const K: usize>(a: Arena<N, K>, q0: Seq<DfsNodeData>, q1: Seq<DfsNodeData>, lp1: usize, data: DfsNodeData,
+    q2: Seq<DfsNodeData>, lp2: usize, q3: Seq<DfsNodeData>, lp3: usize)
+    requires bfs_step(a, q0, q1, lp1, Some(data)), bfs_skip_step(q1, lp1, q2, lp2), bfs_skip_step(q2, lp2, q3, lp3)
+    ensures q2 == q0.drop_first(), q3 == q2
+{
+    lemma_kid_items_len(a[data.index].children, 0, (data.depth + 1) as usize);
+    assert(q2 =~= q0.drop_first());
+    assert(q3 =~= q2);
+}
 // ---- end iter_spec ----
